@@ -12,7 +12,7 @@ Definition receivers (st : state) (g : group) : list N :=
 (* events whose subject is an input session (publisher of any kind or relay-pull attempt) *)
 Definition input_event (st : state) (e : event) : bool :=
   match e with
-  | ERtmpPub _ _ _ | ERtspPub _ _ _ | ECustPub _ _ | EPsPub _ _
+  | ERtmpPub _ _ _ | ERtspPub _ _ _ | ECustPub _ _ | EPsPub _ _ _
   | EPullSucc _ _ | EPullFail _ _ | EPullDone _ _ | EMedia _ => true
   | EGone n | EKick _ (KConn n) =>
     match find_sess n (st_sess st) with Some x => is_some (slot_of (s_kind x)) | None => true end
@@ -122,7 +122,10 @@ Proof.
     cbn [fx_f09 fixed_tree].
     destruct (admit_pub cf st PsPs s0 n true) as [[st1 ok] g1] eqn:E.
     pose proof (keeps2_admit_pub _ _ _ _ _ _ _ _ _ _ Hg Hin E) as Hk.
-    destruct ok; cbn [fst]; (eapply keeps2_same; [|exact Hk]); reflexivity.
+    destruct ok; cbn [fst]; [destruct listen; cbn [fst]|]; try ((eapply keeps2_same; [|exact Hk]); reflexivity).
+    destruct (get_or_create cf st s0) as [st0 g0] eqn:E0.
+    destruct (keeps2_get_or_create _ _ _ _ _ _ _ (keeps2_here _ _ _ Hg) E0) as [Hk0 _].
+    eapply keeps2_same; [|exact Hk0]. reflexivity.
   - (* EGone of a publisher *)
     inversion Hx; subst x.
     destruct (find_sess n (st_sess st)) as [y|]; cbn [fst]; [|apply keeps2_here; assumption].
@@ -230,7 +233,8 @@ Proof.
   - destruct (fresh st n); cbn [negb fst]; [|reflexivity]. cbn [fx_f09 fixed_tree].
     pose proof (admit_pub_sess cf st PsPs s n true) as Hs.
     destruct (admit_pub cf st PsPs s n true) as [[st1 ok] g1]. cbn [fst] in Hs.
-    destruct ok; cbn [fst]; unfold add_sess; cbn [st_sess st_set_sess]; rewrite Hs; apply (sess_open_add _ _ _ y Hy).
+    destruct ok; cbn [fst]; [destruct listen; cbn [fst]|]; unfold add_sess; cbn [st_sess st_set_sess];
+      try rewrite Hs; try rewrite (get_or_create_sess cf st s); apply (sess_open_add _ _ _ y Hy).
   - (* EGone *)
     destruct (find_sess n (st_sess st)) as [z|] eqn:Ez; cbn [fst]; [|reflexivity].
     destruct (s_gone z); cbn [fst]; [reflexivity|].
